@@ -75,6 +75,16 @@ theorem all_due_fire (cb : Cb) (now : Int) (fuel k : Nat) (m : Mgr) (hm : WF m) 
     ∀ i ∈ (execLoop cb now fuel k m).1.lst, now < ((execLoop cb now fuel k m).1.tm i).finish :=
   none_due (sorted_inv_exec cb now fuel k m hm hcb) (execLoop_done cb now fuel k m hfin)
 
+/-- Every planned timer whose deadline has passed runs during that `exec`: its callback is made
+at exactly that deadline — unless an earlier callback of the same `exec` made a call naming
+the timer (unplanned or re-planned it), which is the only way out. -/
+theorem due_runs (cb : Cb) (now : Int) (fuel k : Nat) (m : Mgr) (hm : WF m) (hcb : CbPos cb)
+    (hfin : (execLoop cb now fuel k m).2.2 = true) (i : Nat) (hi : i ∈ m.lst)
+    (hdue : (m.tm i).finish ≤ now) :
+    (∃ f ∈ (execLoop cb now fuel k m).2.1, f.id = i ∧ f.deadline = (m.tm i).finish) ∨
+    (∃ n f a, (execLoop cb now fuel k m).2.1[n]? = some f ∧ a ∈ cb (k + n) f.id ∧ a.target = i) :=
+  (execLoop_steps cb now fuel k m).due_runs hcb hm (execLoop_done cb now fuel k m hfin) i hi hdue
+
 /-! ### order_in_exec -/
 
 /-- Successive callbacks of one `exec`: the deadline does not decrease — unless the earlier of
@@ -335,6 +345,15 @@ theorem refines_reference (ops : List Op) (hv : ∀ op ∈ ops, OpValid op) (m :
       have hm' := sorted_inv_exec cb now fuel 0 m hm hop
       exact Ref.Hist.exec h1 (ih hrest _ hm' hfin.2)
 
+/-- from the freshly constructed manager the reference starts with nothing pending -/
+theorem refines_reference_init (ops : List Op) (hv : ∀ op ∈ ops, OpValid op)
+    (hfin : (runOps Mgr.init ops).2.2 = true) :
+    Ref.Hist Ref.none ops (runOps Mgr.init ops).2.1 (absM (runOps Mgr.init ops).1) := by
+  have h := refines_reference ops hv Mgr.init init_wf hfin
+  have e : absM Mgr.init = Ref.none := by
+    funext i; simp [absM, Mgr.init, Ref.none]
+  rwa [e] at h
+
 /-- observables: `is_planned`, the deadline, `empty()`, `minimal_interval(now)` -/
 theorem pending_eq (m : Mgr) (i : Nat) :
     (i ∈ m.lst ↔ absM m i ≠ none) ∧
@@ -346,6 +365,14 @@ theorem empty_eq (m : Mgr) : m.empty = true ↔ (absM m).IsEmpty := absM_empty m
 /-- `minimal_interval(now)` is the reference's time to the earliest pending deadline -/
 theorem minimal_interval_eq (m : Mgr) (hm : WF m) (now v : Int) (h : m.minimalInterval now = some v) :
     (absM m).Earliest (v + now) := absM_minimal m now v hm h
+
+/-- FULL statement that does NOT hold: "for every manager `minimal_interval(now)` is the
+reference's time to the next deadline".  On an empty manager there is no next deadline and the
+code reads `_start`/`_interval` through the list head (out of the manager object; recorded
+finding C16-minimal-interval-empty).  `minimal_interval_eq` above is the `_partial` form (its
+hypothesis `= some v` is exactly "not empty", see `minimal_interval_defined`); witness: -/
+theorem minimal_interval_empty_witness : Mgr.init.empty = true ∧ ∀ now, Mgr.init.minimalInterval now = none :=
+  ⟨rfl, fun _ => rfl⟩
 
 theorem minimal_interval_defined (m : Mgr) (now : Int) :
     m.minimalInterval now = none ↔ m.empty = true := by
